@@ -28,12 +28,12 @@ type FuzzCase struct {
 	ReadBuf  int    `json:"rbuf,omitempty"`
 	Limit    int64  `json:"limit,omitempty"`
 	// ReadMsg: drain with ReadMessage instead of NextReader+Read.
-	ReadMsg bool   `json:"readmsg,omitempty"`
+	ReadMsg bool `json:"readmsg,omitempty"`
 	// PreBuf (server, entry frames): this many input bytes arrived together
 	// with the handshake request and sit in the hijacked bufio.Reader.
-	PreBuf int `json:"prebuf,omitempty"`
-	Data    []byte `json:"data"`
-	Chunks  []int  `json:"chunks,omitempty"`
+	PreBuf int    `json:"prebuf,omitempty"`
+	Data   []byte `json:"data"`
+	Chunks []int  `json:"chunks,omitempty"`
 	// Headers for entry "headers": name -> values (canonical names).
 	Headers map[string][]string `json:"headers,omitempty"`
 	Method  string              `json:"method,omitempty"`
